@@ -35,6 +35,9 @@ class Instance(object):
 
     # number of callback invocations per unit of `niter`
     cb_per_iter = 1
+    # iterations already done by earlier calls on the same state (what the
+    # caller knows when it resumes; used for iteration-dependent parameters)
+    offset = 0
 
 
 # --------------------------------------------------------------------------
@@ -94,6 +97,10 @@ def gen_instance(rng, solver):
         cfg['X'] = P.gen_space(rng)
         cfg['gamma_frac'] = u(0.2, 0.95)
         cfg['lam'] = rng.choice([1.0, 1.0, 0.5, 1.5])
+        # relaxation as a function of the iteration number (the caller owns
+        # the schedule: a resumed call gets it shifted by what is done)
+        cfg['lam_sched'] = rng.choice([None, None, 'h2', 'warm', 'decay',
+                                       'const'])
     elif solver in ('mlem', 'osmlem'):
         cfg['X'] = P.gen_space(rng, kinds=('rn',))
         cfg['nops'] = 1 if solver == 'mlem' else rng.randint(1, 3)
@@ -394,10 +401,18 @@ class ProxGrad(Instance):
             raise Reject('no Lipschitz constant')
         self.gamma = cfg['gamma_frac'] / lip
         self.lam = cfg['lam']
+        self.sched = None if self.accelerated else cfg.get('lam_sched')
         g = np_rng('x0', cfg['seed'])
         self.state0 = {'x': P.rand_elem(self.X, g)}
         self.tags = (P.func_tag(cfg['f']), P.func_tag(cfg['g']),
-                     cfg['X']['kind'])
+                     cfg['X']['kind'], self.sched or 'lam-number')
+
+    SCHEDULES = {
+        'h2': lambda k: 2.0 / (k + 2.0),
+        'warm': lambda k: 1.0 if k < 2 else 0.6,
+        'decay': lambda k: 1.5 / (k + 1.0),
+        'const': lambda k: 0.8,
+    }
 
     def run(self, st, niter, callback=None):
         S = odl().solvers
@@ -406,8 +421,12 @@ class ProxGrad(Instance):
                                             self.gamma, niter,
                                             callback=callback)
         else:
+            lam = self.lam
+            if self.sched:
+                sch, off = self.SCHEDULES[self.sched], self.offset
+                lam = lambda k: sch(k + off)
             S.proximal_gradient(st['x'], self.f, self.g, self.gamma, niter,
-                                callback=callback, lam=self.lam)
+                                callback=callback, lam=lam)
 
 
 class AccProxGrad(ProxGrad):
